@@ -803,10 +803,12 @@ def fdfate_run(ctx):
 def run_C09(ctx):
     if ctx.replay is not None:
         eng = ctx.replay["engine"]
-        viol = {"server": lambda c: hostile_server_run(c, True), "client": lambda c: client_run(c, True),
+        viol = {"server": lambda c: hostile_server_run(c, True), "client": lambda c: client_run(c, True), "session": session_run,
                 "bereq": lambda c: bereq_run(c, hostile=True), "gpu": gpu_run, "daemon_fdfate": fdfate_run}[eng](ctx)
     else:
-        viol = (hostile_server_run(ctx, fdpos=True) + client_run(ctx, want_mutations=True)
+        # (server_run: the functional stimuli of the request server, among them the handler outcomes that hand a descriptor of the
+        #  application's own to the library for transmission -- such a descriptor, too, must be gone after the teardown)
+        viol = (hostile_server_run(ctx, fdpos=True) + server_run(ctx) + session_run(ctx) + client_run(ctx, want_mutations=True)
                 + bereq_run(ctx, hostile=True) + gpu_run(ctx, hostile=True) + fdfate_run(ctx))
     return ctx.finish("fault_enumeration",
         "every connection of the hostile-input spaces of C05/C06 (valid, invalid, truncated, over-stuffed messages with 0..40 descriptors on "
